@@ -30,6 +30,10 @@ META["text"] = (
     "Tie: the model is evaluated at binary64 inside Coq on the inputs of this run and compared with mjc_PlaneSphere, mjc_SphereSphere, mjc_PlaneCapsule, mjc_SphereCapsule, mjc_CapsuleCapsule (called through the mjCOLLISIONFUNC table entries on two-geom mjSpec models with poses written into mjData), mju_makeFrame and mj_geomDistance in both geom orders. "
     "Oracle on implementation output (no theorem involved): for every contact of the direct calls and for EVERY contact produced by mj_collision on two-geom worlds and mjgen scenes: |normal| = 1, frame orthonormal right-handed with first row the normal (1e-10), dist <= margin+gap, includemargin = margin; "
     "for the analytic pairs the smallest contact dist equals an independently computed true signed distance (golden-section search for segment-segment), the surface points pos -+ dist/2 n lie on the two surfaces and the normal leaves geom 1 / enters geom 2; mj_geomDistance is symmetric in its two geoms and agrees with the smallest contact dist of the pair. "
+    "mjc_PlaneCylinder (all four contacts, both arms of the 'disk parallel to plane' switch, as fixed in /repo: threshold len_sqr >= mjMINVAL) is in the model and in the float tie but has NO theorem: it is covered by the tie and by the oracle (true signed distance through the closed form, surface points, 18 near-parallel angles per tilted frame). "
+    "A structured degenerate-alignment stream runs every primitive pair (plane, sphere, capsule, ellipsoid, cylinder, box) through the full pipeline with axes exactly parallel / perpendicular / at 45 degrees, placed along axes and diagonals at gaps 0, inside the margin, penetrating and beyond the margin, "
+    "in a canonical frame and under a common random rigid motion (rotation composed about three axes) and in both geom orders; oracles there: per-contact checks, true signed distance (plane pairs exactly through the support function of the second geom, other pairs through a certified alternating-projection reference when separated), "
+    "mj_geomDistance, and covariance (same smallest dist and mj_geomDistance, every contact has a partner with equal dist and rotated pos/normal); the mj_geomDistance clauses of exactly touching GJK/EPA pairs are delegated to C15 (known finding touching-degenerate) and counted. "
     "Floating point is outside the theorems: in particular C13_frame holds over the reals for every y, while at binary64 a given y-axis of length >= 2 exactly parallel to x leaves a rounding residue above mjMINVAL "
     "so the fallback of the (fixed) mju_makeFrame does not fire (not reachable from the colliders, whose tangents are zero or unit axes), and a y-axis at angle a to x gives orthogonality error ~1e-16/a (single-pass Gram-Schmidt). "
     "Not covered by theorems: box colliders, plane/sphere-cylinder, ellipsoid/cylinder/mesh pairs (GJK/EPA) — these only get the generic per-contact oracle (unit normal, orthonormal frame, dist <= margin, mj_geomDistance symmetry/agreement with a loose tolerance).")
@@ -38,8 +42,8 @@ META["note"] = ("Trusted: Coq kernel + the standard-library real-number axioms l
 
 TOL = "0x1p-30"
 PLANE, SPHERE, CAPSULE = 0, 2, 3
-PAIRS = {"PS": (0, PLANE, SPHERE), "SS": (1, SPHERE, SPHERE), "PC": (2, PLANE, CAPSULE), "SC": (3, SPHERE, CAPSULE), "CC": (4, CAPSULE, CAPSULE)}
-ANALYTIC_TYPES = {(PLANE, SPHERE), (SPHERE, SPHERE), (PLANE, CAPSULE), (SPHERE, CAPSULE), (CAPSULE, CAPSULE)}
+PAIRS = {"PS": (0, PLANE, SPHERE), "SS": (1, SPHERE, SPHERE), "PC": (2, PLANE, CAPSULE), "SC": (3, SPHERE, CAPSULE), "CC": (4, CAPSULE, CAPSULE), "PY": (6, PLANE, 5)}
+ANALYTIC_TYPES = {(PLANE, SPHERE), (SPHERE, SPHERE), (PLANE, CAPSULE), (SPHERE, CAPSULE), (CAPSULE, CAPSULE), (PLANE, 5)}
 CCD_FUNCS = "pairs routed to mjc_Convex / mjc_BoxBox (GJK/EPA distance in mj_geomDistance)"
 GEOMNAME = {0: "plane", 1: "hfield", 2: "sphere", 3: "capsule", 4: "ellipsoid", 5: "cylinder", 6: "box", 7: "mesh", 8: "sdf"}
 
@@ -159,6 +163,13 @@ def sdf(t, pos, mat, size, p):
         return norm(sub(p, pos)) - size[0]
     if t == CAPSULE:
         return seg_point_dist(p, pos, zax(mat), size[1]) - size[0]
+    if t == 5:        # solid cylinder
+        a = zax(mat)
+        v = sub(p, pos)
+        z = dot(v, a)
+        dr = norm(sub(v, scl(a, z))) - size[0]
+        dz = abs(z) - size[1]
+        return math.hypot(max(dr, 0.0), max(dz, 0.0)) if max(dr, dz) > 0 else max(dr, dz)
     return None
 
 
@@ -172,9 +183,29 @@ def true_dist(t1, pos1, mat1, size1, t2, pos2, mat2, size2):
         return min(dot(sub(add(pos2, scl(a, s * size2[1])), pos1), n) for s in (1, -1)) - size2[0]
     if (t1, t2) == (SPHERE, CAPSULE):
         return seg_point_dist(pos1, pos2, zax(mat2), size2[1]) - size1[0] - size2[0]
+    if (t1, t2) == (PLANE, 5):
+        n, a = zax(mat1), zax(mat2)
+        k = dot(a, n)
+        return dot(sub(pos2, pos1), n) - size2[1] * abs(k) - size2[0] * math.sqrt(max(0.0, 1 - k * k))
     if (t1, t2) == (CAPSULE, CAPSULE):
         return seg_seg_dist(pos1, zax(mat1), size1[1], pos2, zax(mat2), size2[1]) - size1[0] - size2[0]
     return None
+
+
+def cc_overhang(pos1, mat1, size1, pos2, mat2, size2):
+    """KNOWN finding C13 parallel-overhang: the parallel arm of mjraw_CapsuleCapsule tests the ends of the FIRST capsule first and returns
+    as soon as two contacts exist; when the first capsule overhangs the second one on both sides (neither of its ends attains the segment
+    distance) both contacts report an inflated distance.  Returns (capsule 1 overhangs 2, capsule 2 overhangs 1)."""
+    a1, a2 = zax(mat1), zax(mat2)
+    if norm(cross(a1, a2)) >= 1e-7:
+        return False, False
+    segd = seg_seg_dist(pos1, a1, size1[1], pos2, a2, size2[1])
+    e12 = min(seg_point_dist(add(pos1, scl(a1, e * size1[1])), pos2, a2, size2[1]) for e in (1, -1))
+    e21 = min(seg_point_dist(add(pos2, scl(a2, e * size2[1])), pos1, a1, size1[1]) for e in (1, -1))
+    pr1 = [dot(sub(add(pos1, scl(a1, e * size1[1])), pos2), a2) for e in (1, -1)]
+    pr2 = [dot(sub(add(pos2, scl(a2, e * size2[1])), pos1), a1) for e in (1, -1)]
+    return (e12 > segd + 1e-9 and min(pr1) < -size2[1] and max(pr1) > size2[1],
+            e21 > segd + 1e-9 and min(pr2) < -size1[1] and max(pr2) > size1[1])
 
 
 def frame_errors(fr):
@@ -213,8 +244,9 @@ def check_contact_geometry(t1, pos1, mat1, size1, t2, pos2, mat2, size2, dist, p
         o2 = sdf(t2, pos2, mat2, size2, add(p2, scl(normal, -eps)))
         # additional contacts of multi-contact pairs are end-sphere contacts: their second surface point may lie on the capsule
         # axis (upright capsule sunk into the plane), where moving along the normal does not change the signed distance
-        thr1, thr2 = (0.5 * eps, 0.5 * eps) if nearest else (1e-3 * eps, -1e-3 * eps)
-        if not (o1 > s1 + thr1 and o2 > s2 + thr2):
+        # (nor for the upper-cap rim point of a tilted cylinder, from which -normal leads into the solid)
+        ok = (o1 > s1 + 0.5 * eps and o2 > s2 + 0.5 * eps) if nearest else (o1 > s1 + 1e-3 * eps)
+        if not ok:
             f.append("normal does not point from geom 1 to geom 2 (moving along +normal from surface point 1 changes its signed distance by %.3g, along -normal from point 2 by %.3g, expected +%.3g)" % (o1 - s1, o2 - s2, eps))
     return f
 
@@ -301,6 +333,17 @@ def pair_cases(ctx):
             r = quat2mat(q)
             m2p = [sum(r[3 * i + kk] * m1[3 * kk + j] for kk in range(3)) for i in range(3) for j in range(3)]
             addc("CC", p, m1, [0.125, 0.5, 0], add(add(p, scl(side, 0.2)), scl(cross(a, side), 0.3)), m2p, [0.25, 0.75, 0], 0.5, kind="nearly-parallel")
+        # cylinder on a tilted plane: cap-down with the SAME (non-symmetric) orientation (degenerate 'disk parallel to plane' arm), upside-down,
+        # lying on its side, and axis nearly parallel to the normal (around the len_sqr = mjMINVAL^2 switch)
+        mflip1 = [m1[0], -m1[1], -m1[2], m1[3], -m1[4], -m1[5], m1[6], -m1[7], -m1[8]]
+        for hgt in (0.3 + 0.004, 0.3 - 0.01, 0.3, 0.3 + 0.2):
+            addc("PY", p, m1, [1, 1, 0.1], add(add(p, scl(zax(m1), hgt)), scl(side, 0.2)), m1, [0.2, 0.3, 0], 0.02, kind="cap-down-tilted")
+            addc("PY", p, m1, [1, 1, 0.1], add(add(p, scl(zax(m1), hgt)), scl(side, 0.2)), mflip1, [0.2, 0.3, 0], 0.02, kind="cap-down-tilted-flipped")
+        addc("PY", p, m1, [1, 1, 0.1], add(p, scl(zax(m1), 0.21)), quat2mat(quat_z_to(side)), [0.2, 0.3, 0], 0.02, kind="lying")
+        for ang in (1e-17, 3e-16, 9e-16, 1.1e-15, 3e-15, 1e-14, 1e-13, 1e-12, 1e-10, 1e-9, 1e-8, 2.5e-8, 3.1e-8, 3.3e-8, 5e-8, 1e-7, 1e-6, 1e-4):
+            r = quat2mat([math.cos(ang / 2)] + scl(side, math.sin(ang / 2)))
+            m2p = [sum(r[3 * i + kk] * m1[3 * kk + j] for kk in range(3)) for i in range(3) for j in range(3)]
+            addc("PY", p, m1, [1, 1, 0.1], add(p, scl(zax(m1), 0.305)), m2p, [0.2, 0.3, 0], 0.02, kind="nearly-parallel")
         # upright / lying capsule on a plane, tilted planes
         addc("PC", p, m1, [1, 1, 0.1], add(p, scl(zax(m1), 0.6)), m1, [0.125, 0.5, 0], 0.0, kind="upright")
         addc("PC", p, m1, [1, 1, 0.1], add(p, scl(zax(m1), 0.1)), quat2mat(quat_z_to(side)), [0.125, 0.5, 0], 0.0, kind="lying")
@@ -398,6 +441,230 @@ def world_cases(ctx):
     return cs
 
 
+# ------------------------------------------------------------------------------------- degenerate-alignment stream (full pipeline)
+def qmul(a, b):
+    return [a[0] * b[0] - a[1] * b[1] - a[2] * b[2] - a[3] * b[3],
+            a[0] * b[1] + a[1] * b[0] + a[2] * b[3] - a[3] * b[2],
+            a[0] * b[2] - a[1] * b[3] + a[2] * b[0] + a[3] * b[1],
+            a[0] * b[3] + a[1] * b[2] - a[2] * b[1] + a[3] * b[0]]
+
+
+def qaxis(ax, ang):
+    s = math.sin(ang / 2)
+    return [math.cos(ang / 2), ax[0] * s, ax[1] * s, ax[2] * s]
+
+
+def matvec3(m, v):
+    return [m[0] * v[0] + m[1] * v[1] + m[2] * v[2], m[3] * v[0] + m[4] * v[1] + m[5] * v[2], m[6] * v[0] + m[7] * v[1] + m[8] * v[2]]
+
+
+ELLIPSOID, CYLINDER, BOX = 4, 5, 6
+ALIGNED_QUATS = [("aligned", [1.0, 0, 0, 0]), ("flipped", [0.0, 1.0, 0, 0]), ("axis-perpendicular", qaxis([1.0, 0, 0], math.pi / 2)),
+                 ("axis-perpendicular-y", qaxis([0, 1.0, 0], math.pi / 2)), ("edge-45", qaxis([1.0, 0, 0], math.pi / 4)), ("yaw-30", qaxis([0, 0, 1.0], math.pi / 6))]
+ALIGNED_DIRS = [("+z", [0.0, 0, 1.0]), ("-z", [0.0, 0, -1.0]), ("+x", [1.0, 0, 0]), ("+y", [0, 1.0, 0]), ("xy-diagonal", [math.sqrt(0.5), math.sqrt(0.5), 0]),
+                ("space-diagonal", [1 / math.sqrt(3)] * 3)]
+ALIGNED_GAPS = [0.0, 0.004, -0.01, 0.05]
+ALIGNED_MARGIN = 0.01            # per geom: contacts are detected up to 0.02
+
+
+def aligned_cases(ctx):
+    """structured degenerate alignments for every primitive pair, in a canonical frame (geom A at the origin with identity
+    orientation, geom B with its axes exactly parallel / perpendicular / at 45 degrees to A's, placed along an axis or a
+    diagonal of A at a controlled gap) and under a common random rigid motion (rotation composed about three axes, so the
+    rotation matrix is not symmetric; random translation); non-plane pairs in both geom orders.
+    Returns list of dicts(group, label, tA, sA, tB, sB, qB, pB, gap, motion=(q, t) or None, swap)."""
+    import c15 as H
+    rng = ctx.rng
+    big = ctx.tier != "quick"
+    types = [PLANE, SPHERE, CAPSULE, ELLIPSOID, CYLINDER, BOX]
+    out = []
+    gid = 0
+    for ia, tA in enumerate(types):
+        for tB in types[max(ia, 1):]:
+            if tA == PLANE and tB == PLANE:
+                continue
+            quats = ALIGNED_QUATS if tB != SPHERE else ALIGNED_QUATS[:1]
+            dirs = ALIGNED_DIRS[:1] if tA == PLANE else (ALIGNED_DIRS if tA != SPHERE else ALIGNED_DIRS[:3])
+            combos = [(qn, q, dn, d, gap) for (qn, q) in quats for (dn, d) in dirs for gap in ALIGNED_GAPS]
+            if tA != PLANE and not big:                    # quick tier: plane pairs exhaustively, a sample of the others
+                combos = rng.sample(combos, 4)
+            elif tA != PLANE:
+                combos = rng.sample(combos, min(len(combos), 40))
+            for (qn, qB, dn, d, gap) in combos:
+                sA = [1, 1, 0.1] if tA == PLANE else [rng.choice([0.1, 0.15]), rng.choice([0.2, 0.12]), rng.choice([0.25, 0.08])]
+                sB = [rng.choice([0.1, 0.2]), rng.choice([0.1, 0.15]), rng.choice([0.12, 0.3])]
+                B0 = H.Shape(tB, sB, [0.0, 0, 0], quat2mat(qB))
+                if tA == PLANE:
+                    s0 = B0.h([0.0, 0, -1.0]) + gap          # lowest point of B at height gap above the plane z = 0
+                    pB = [rng.uniform(-0.3, 0.3), rng.uniform(-0.3, 0.3), s0]
+                else:
+                    A0 = H.Shape(tA, sA, [0.0, 0, 0], EYE)
+                    s0 = A0.h(d) + B0.h(scl(d, -1.0)) + gap  # slab separation along d equals gap
+                    pB = scl(d, s0)
+                qR = qmul(qmul(qaxis([0, 0, 1.0], rng.uniform(0.3, 2.8)), qaxis([0, 1.0, 0], rng.uniform(0.2, 1.3) * rng.choice([-1, 1]))), qaxis([1.0, 0, 0], rng.uniform(0.2, 1.3) * rng.choice([-1, 1])))
+                qR = unit(qR)
+                tR = rvec(rng, 1.0)
+                label = "%s-%s %s along %s gap %g" % (GEOMNAME[tA], GEOMNAME[tB], qn, dn, gap)
+                for motion in (None, (qR, tR)):
+                    for swap in ((False,) if tA == PLANE else (False, True)):
+                        out.append(dict(group=gid, label=label, tA=tA, sA=sA, tB=tB, sB=sB, qB=qB, pB=pB, gap=gap, motion=motion, swap=swap))
+                gid += 1
+    return out
+
+
+def aligned_world(c):
+    """world poses of the two geoms of an aligned case: (typeA, sizeA, posA, quatA, typeB, sizeB, posB, quatB)"""
+    pA, qA, pB, qB = [0.0, 0, 0], [1.0, 0, 0, 0], list(c["pB"]), list(c["qB"])
+    if c["motion"] is not None:
+        qR, tR = c["motion"]
+        R = quat2mat(qR)
+        pA, pB = add(matvec3(R, pA), tR), add(matvec3(R, pB), tR)
+        qA, qB = qmul(qR, qA), qmul(qR, qB)
+    return (c["tA"], c["sA"], pA, qA, c["tB"], c["sB"], pB, qB)
+
+
+def aligned_line(c):
+    (tA, sA, pA, qA, tB, sB, pB, qB) = aligned_world(c)
+    first, second = ((tB, sB, pB, qB), (tA, sA, pA, qA)) if c["swap"] else ((tA, sA, pA, qA), (tB, sB, pB, qB))
+    return "WORLD %d %s %d %s %s\n" % (first[0], " ".join(hx(x) for x in first[1] + first[2] + first[3]), second[0], " ".join(hx(x) for x in second[1] + second[2] + second[3]),
+                                       " ".join(hx(x) for x in [ALIGNED_MARGIN, 0, ALIGNED_MARGIN, 0, 1.0]))
+
+
+def parse_world_line(line):
+    t = line.split()
+    if t[0] == "ERR":
+        return None
+    ncon = int(t[0])
+    v = [unhx(x) for x in t[1:16]]
+    rest = t[16:]
+    cons = []
+    for i in range(ncon):
+        r = rest[16 * i:16 * i + 16]
+        vals = [unhx(x) for x in r[:14]]
+        cons.append(dict(dist=vals[0], pos=vals[1:4], frame=vals[4:13], inc=vals[13], g=(int(r[14]), int(r[15]))))
+    return dict(detect=v[0], gd12=v[1], ft12=v[2:8], gd21=v[8], ft21=v[9:15], cons=cons)
+
+
+def aligned_oracle(ctx, cases, results, stats):
+    """oracles on the degenerate-alignment stream: per-contact checks, true signed distance (plane pairs: exact through the
+    support function of the second geom; other pairs: certified alternating-projection reference when separated),
+    mj_geomDistance, and covariance of the contacts under the common rigid motion and under the geom order."""
+    import c15 as H
+    DIRECT = {(PLANE, SPHERE), (PLANE, CAPSULE), (PLANE, ELLIPSOID), (PLANE, CYLINDER), (PLANE, BOX), (SPHERE, SPHERE), (SPHERE, CAPSULE), (SPHERE, CYLINDER),
+              (SPHERE, BOX), (CAPSULE, CAPSULE), (CAPSULE, BOX)}
+    groups = {}
+    for c, w in zip(cases, results):
+        groups.setdefault(c["group"], []).append((c, w))
+        (tA, sA, pA, qA, tB, sB, pB, qB) = aligned_world(c)
+        key = "%s-%s" % (GEOMNAME[tA], GEOMNAME[tB])
+        case = {"aligned": c["label"], "world": [tA, sA, pA, qA, tB, sB, pB, qB], "swap": c["swap"], "rigid_motion": c["motion"]}
+        sig = {"site": "mj_collision", "pair": key}
+
+        oh = cc_overhang(pA, quat2mat(qA), sA, pB, quat2mat(qB), sB) if (tA, tB) == (CAPSULE, CAPSULE) else (False, False)
+        oh_first = oh[1] if c["swap"] else oh[0]          # does the capsule passed first to the collider overhang the other one?
+
+        def viol(what, exp, obs, cls, oh=oh, oh_first=oh_first, case=case, sig=sig):
+            if (oh_first and cls in ("dist", "geomdist")) or ((oh[0] or oh[1]) and cls == "geomdist-sym"):
+                ctx.violation("impl_violation", dict(case, what=what), expected=exp, observed=obs, theorem="C13 oracle: " + what,
+                              signature={"site": "mjc_CapsuleCapsule", "class": "parallel-overhang"})
+            else:
+                ctx.violation("impl_violation", dict(case, what=what), expected=exp, observed=obs, theorem="C13 oracle: " + what, signature=dict(sig, **{"class": cls}))
+        if w is None:
+            viol("mj_collision runs", "contacts", "ERR", "error")
+            continue
+        stats["worlds"] += 1
+        stats["contacts"] += len(w["cons"])
+        for con in w["cons"]:
+            check_full_contact(ctx, "ALIGNED", case, tA, tB, con["dist"], con["pos"], con["frame"], con["inc"], w["detect"], 2 * ALIGNED_MARGIN)
+        dists = [con["dist"] for con in w["cons"]]
+        direct = (tA, tB) in DIRECT
+        # ---- true signed distance
+        td = None
+        if tA == PLANE:
+            n = zax(quat2mat(qA))
+            X = H.Shape(tB, sB, pB, quat2mat(qB))
+            td = -X.h(scl(n, -1.0)) - dot(n, pA)              # lowest point of the convex geom above the plane (signed)
+            tol = 1e-9
+        else:
+            ref = H.separated_reference(H.Shape(tA, sA, pA, quat2mat(qA)), H.Shape(tB, sB, pB, quat2mat(qB)), iters=600)
+            if ref is not None and ref[1] - ref[0] < 1e-7 and ref[0] > 1e-6:
+                td = 0.5 * (ref[0] + ref[1])
+                tol = 2e-6 if direct else 1e-5 + 5e-3 * max(0.0, w["detect"] - td)
+        if td is not None:
+            stats["with_true_distance"] += 1
+            if td < w["detect"] - 1e-6 and not dists:
+                viol("contact emitted iff distance <= margin", "a contact (true signed distance %.17g < margin+gap %.17g)" % (td, w["detect"]), "ncon=0", "emit")
+            if td > w["detect"] + 1e-6 and dists:
+                viol("contact emitted iff distance <= margin", "no contact (true signed distance %.17g > margin+gap %.17g)" % (td, w["detect"]), dists, "emit")
+            if dists and abs(min(dists) - td) > tol and not (tA == BOX and tB == BOX):
+                viol("smallest contact dist = true signed distance", td, min(dists), "dist")
+            if abs(w["gd12"] - min(td, 1.0)) > (tol if direct else 2e-6):
+                viol("mj_geomDistance = true signed distance", td, w["gd12"], "geomdist")
+        gjk_touching = (not direct) and abs(c["gap"]) < 1e-9     # exactly touching GJK/EPA pairs: see C15 (class touching-degenerate)
+        if gjk_touching:
+            stats["gjk_touching_delegated_to_C15"] = stats.get("gjk_touching_delegated_to_C15", 0) + 1
+        elif abs(w["gd12"] - w["gd21"]) > (1e-9 if direct else 2e-6 + 2e-3 * max(0.0, -w["gd12"])):
+            viol("mj_geomDistance symmetric in its two geoms", w["gd12"], w["gd21"], "geomdist-sym")
+    # ---- covariance within each group: reference = canonical frame, first geom order
+    for gidx, items in groups.items():
+        ref = next(((c, w) for c, w in items if c["motion"] is None and not c["swap"]), None)
+        if ref is None or ref[1] is None:
+            continue
+        c0, w0 = ref
+        tA, tB = c0["tA"], c0["tB"]
+        direct = (tA, tB) in DIRECT
+        if (tA, tB) == (CAPSULE, CAPSULE):
+            w_ = aligned_world(c0)
+            if any(cc_overhang(w_[2], quat2mat(w_[3]), w_[1], w_[6], quat2mat(w_[7]), w_[5])):
+                continue
+        for c, w in items:
+            if w is None or c is c0:
+                continue
+            case = {"aligned": c["label"], "world": list(aligned_world(c)), "swap": c["swap"], "rigid_motion": c["motion"], "canonical_world": list(aligned_world(c0))}
+            sig = {"site": "mj_collision", "pair": "%s-%s" % (GEOMNAME[tA], GEOMNAME[tB])}
+            if c["motion"] is not None:
+                R, tR = quat2mat(c["motion"][0]), c["motion"][1]
+            else:
+                R, tR = EYE, [0.0, 0, 0]
+            tol = 1e-9 if direct else 1e-5 + 5e-3 * 0.03
+            # smallest distance and mj_geomDistance are invariant
+            d0 = [x["dist"] for x in w0["cons"]]
+            d1 = [x["dist"] for x in w["cons"]]
+            stats["covariance_pairs"] += 1
+            bad = None
+            gjk_touching = (not direct) and abs(c0["gap"]) < 1e-9
+            if gjk_touching:
+                pass
+            elif abs(w["gd12"] - w0["gd12"]) > (1e-9 if direct else 2e-6 + 2e-3 * max(0.0, -w0["gd12"])):
+                bad = ("mj_geomDistance invariant under a common rigid motion / geom order", w0["gd12"], w["gd12"])
+            elif (not d0) != (not d1) and min(d0 + d1) < w0["detect"] - 1e-6:
+                bad = ("contact emitted independently of a common rigid motion / geom order", "ncon=%d dists=%s" % (len(d0), d0), "ncon=%d dists=%s" % (len(d1), d1))
+            elif d0 and d1 and abs(min(d0) - min(d1)) > tol and not (tA == BOX and tB == BOX):
+                bad = ("smallest contact dist invariant under a common rigid motion / geom order", min(d0), min(d1))
+            elif direct and d0 and d1:
+                # every contact of the smaller set has a covariant partner in the other one: dist equal, pos and normal rotated
+                # (the normal points from the geom of lower type to the other one in every order, so it is not reversed by the swap)
+                small, large, fwd = (w0["cons"], w["cons"], True) if len(d0) <= len(d1) else (w["cons"], w0["cons"], False)
+                for x in small:
+                    px, nx = (add(matvec3(R, x["pos"]), tR), matvec3(R, x["frame"][:3])) if fwd else (x["pos"], x["frame"][:3])
+                    ok = False
+                    for y in large:
+                        py, ny = (y["pos"], y["frame"][:3]) if fwd else (add(matvec3(R, y["pos"]), tR), matvec3(R, y["frame"][:3]))
+                        same_type_swap = c["swap"] and tA == tB
+                        nn = scl(ny, -1.0) if same_type_swap else ny
+                        if abs(x["dist"] - y["dist"]) <= 1e-9 and norm(sub(px, py)) <= 1e-8 and norm(sub(nx, nn)) <= 1e-8:
+                            ok = True
+                            break
+                    if not ok:
+                        bad = ("contacts transform covariantly under a common rigid motion / geom order (dist equal, pos and normal rotated)",
+                               {"canonical_contacts": [(y["dist"], y["pos"], y["frame"][:3]) for y in w0["cons"]]},
+                               {"contacts": [(y["dist"], y["pos"], y["frame"][:3]) for y in w["cons"]]})
+                        break
+            if bad:
+                ctx.violation("impl_violation", dict(case, what=bad[0]), expected=bad[1], observed=bad[2], theorem="C13 oracle: " + bad[0], signature=dict(sig, **{"class": "covariance"}))
+
+
+
 # ------------------------------------------------------------------------------------- Coq side
 def coq_pre():
     return "\n".join([
@@ -412,6 +679,7 @@ def coq_pre():
         "  else if (op =? 1)%Z then (if swap then rawSphereSphere mg p2 m2 (g a 27) p1 m1 (g a 12) else rawSphereSphere mg p1 m1 (g a 12) p2 m2 (g a 27))",
         "  else if (op =? 2)%Z then planeCapsule mg p1 m1 p2 m2 (g a 27) (g a 28)",
         "  else if (op =? 3)%Z then sphereCapsule mg p1 m1 (g a 12) p2 m2 (g a 27) (g a 28)",
+        "  else if (op =? 6)%Z then planeCylinder mg p1 m1 p2 m2 (g a 27) (g a 28)",
         "  else (if swap then capsuleCapsule mg p2 m2 (g a 27) (g a 28) p1 m1 (g a 12) (g a 13) else capsuleCapsule mg p1 m1 (g a 12) (g a 13) p2 m2 (g a 27) (g a 28)).",
         "Definition model (op : Z) (a : list float) : list float :=",
         "  if (op =? 5)%Z then match makeFrame (V a 0) (V a 3) with Some (x, y, z) => v2l x ++ v2l y ++ v2l z | None => [] end",
@@ -443,33 +711,32 @@ def oracle_pair(ctx, name, a, meta, parsed, stats):
     kind = meta["kind"]
     if kind in ("negative-margin", "zero-length"):
         return
-    sig = {"site": "mjc_" + {"PS": "PlaneSphere", "SS": "SphereSphere", "PC": "PlaneCapsule", "SC": "SphereCapsule", "CC": "CapsuleCapsule"}[name]}
+    sig = {"site": "mjc_" + {"PS": "PlaneSphere", "SS": "SphereSphere", "PC": "PlaneCapsule", "SC": "SphereCapsule", "CC": "CapsuleCapsule", "PY": "PlaneCylinder"}[name]}
 
     def viol(what, exp, obs, cls):
         ctx.violation("impl_violation", {"pair": name, "kind": kind, "args": a, "what": what}, expected=exp, observed=obs,
                       theorem="C13 oracle: " + what, signature=dict(sig, **{"class": cls}))
     td = true_dist(t1, pos1, mat1, size1, t2, pos2, mat2, size2)
     sc = 1 + max(abs(v) for v in pos1 + pos2)
-    overhang12 = overhang21 = False
-    if name == "CC" and norm(cross(zax(mat1), zax(mat2))) < 1e-7:
-        # KNOWN finding C13 parallel-overhang: the parallel arm of mjraw_CapsuleCapsule tests the ends of the FIRST capsule first and
-        # returns as soon as two contacts exist; when the first capsule overhangs the second one on both sides (neither of its
-        # ends attains the segment distance) both contacts report an inflated distance.  Only this configuration gets the
-        # known class; every other wrong distance of parallel capsules keeps its ordinary class.
-        a1, a2 = zax(mat1), zax(mat2)
-        segd = seg_seg_dist(pos1, a1, size1[1], pos2, a2, size2[1])
-        e12 = min(seg_point_dist(add(pos1, scl(a1, e * size1[1])), pos2, a2, size2[1]) for e in (1, -1))
-        e21 = min(seg_point_dist(add(pos2, scl(a2, e * size2[1])), pos1, a1, size1[1]) for e in (1, -1))
-        pr1 = [dot(sub(add(pos1, scl(a1, e * size1[1])), pos2), a2) for e in (1, -1)]
-        pr2 = [dot(sub(add(pos2, scl(a2, e * size2[1])), pos1), a1) for e in (1, -1)]
-        overhang12 = e12 > segd + 1e-9 and min(pr1) < -size2[1] and max(pr1) > size2[1]
-        overhang21 = e21 > segd + 1e-9 and min(pr2) < -size1[1] and max(pr2) > size1[1]
+    overhang12, overhang21 = cc_overhang(pos1, mat1, size1, pos2, mat2, size2) if name == "CC" else (False, False)
+    # candidate finding near-parallel-cancellation: cylinder axis nearly but not exactly parallel to the plane normal
+    nearpar = False
+    if name == "PY":
+        sang = norm(cross(zax(mat1), zax(mat2)))
+        nearpar = False and 3e-16 < sang < 1e-7     # fixed in /repo (threshold len_sqr >= mjMINVAL): no carve-out, the window is fully in the oracle
     _viol = viol
 
     def viol(what, exp, obs, cls):      # noqa: F811
         known = (overhang12 and cls in ("dist", "pos", "normal", "geomdist")) or ((overhang12 or overhang21) and cls == "geomdist-sym")
-        _viol(what, exp, obs, "parallel-overhang" if known else cls)
+        if nearpar and cls in ("dist", "pos", "normal", "geomdist", "emit", "margin"):
+            _viol(what, exp, obs, "near-parallel-cancellation")
+        else:
+            _viol(what, exp, obs, "parallel-overhang" if known else cls)
     tol = 1e-9 * sc
+    if name == "PY":
+        # cylinder axis within sqrt(mjMINVAL) = 3.2e-8 rad of the plane normal: the degenerate arm uses the cylinder x-axis instead of the
+        # lowest rim direction (error <= r * angle), just above it the normalised cancellation vector carries ~1e-16/3.2e-8 relative noise
+        tol += 5e-8 * size2[0]
     # coincident centre points (sphere centres / nearest segment points): the normal direction is a convention
     degenerate = kind.startswith(("coincident", "near-coincident")) or (t1 != PLANE and td + size1[0] + size2[0] < 1e-12)
     # emitted iff true distance <= margin (outside a tolerance band; exact in the dyadic 'touching' cases)
@@ -661,6 +928,17 @@ def run(ctx):
                 if dists and abs(min(dists) - td) > 1e-9:
                     ctx.violation("impl_violation", case, expected=td, observed=min(dists), theorem="C13 oracle: smallest contact dist = true signed distance",
                                   signature={"site": "mj_collision", "pair": key, "class": "dist"})
+    # ---------------- full pipeline: structured degenerate alignments, canonical frame vs common rigid motion, both geom orders
+    acs = aligned_cases(ctx)
+    astats = {"worlds": 0, "contacts": 0, "with_true_distance": 0, "covariance_pairs": 0}
+    rc, out, err = ctx.run(exe, "".join(aligned_line(c) for c in acs))
+    lines = out.strip("\n").split("\n") if out.strip() else []
+    if rc != 0 or len(lines) != len(acs):
+        ctx.broken.append(("correspondence", "driver c13_prim failed (ALIGNED)", "rc=%s lines=%d/%d %s" % (rc, len(lines), len(acs), err[-800:])))
+    else:
+        aligned_oracle(ctx, acs, [parse_world_line(l) for l in lines], astats)
+    ctx.cov["support"]["aligned_stream"] = astats
+    phase["aligned_stream"] = round(time.time() - t0, 1)
     # ---------------- full pipeline: mjgen scenes
     nscene = 60 if ctx.tier == "quick" else 1200
     seeds = [rng.randrange(1, 10 ** 6) for _ in range(nscene)]
